@@ -129,6 +129,7 @@ def worker(args):
                 out["undecided"] = f"outside the supported subset: {ex.unsupported[0]}"
         out["assumptions"] = sorted(asm)
         out["callees"] = sorted(cs.used)
+        out["assumed_callees"] = {n: cs.contracts[n].assumed for n in cs.used if n in cs.contracts and cs.contracts[n].assumed}
         out["stats"] = dict(ex.stats)
     except Exception as e:      # noqa
         out["error"] = f"{type(e).__name__}: {e}\n{traceback.format_exc()[-1500:]}"
@@ -219,9 +220,30 @@ def main(argv=None):
         else:
             targets.append(t)
     results = []
+    listed = list(targets)
     with cf.ProcessPoolExecutor(max_workers=a.jobs) as ex:
-        for r in ex.map(worker, [(t, timeout_ms, thorough) for t in targets]):
-            results.append(r)
+        todo = list(targets)
+        seen = set(targets)
+        rounds = 0
+        while todo and rounds < 6:
+            rounds += 1
+            batch = list(ex.map(worker, [(t, timeout_ms, thorough) for t in todo]))
+            results.extend(batch)
+            # modular closure: a callee used by its contract is verified against its own body in the same run, so a change
+            # inside a callee fails here and not only under the property that lists the callee
+            todo = []
+            for r in batch:
+                for cname in r.get("callees", []):
+                    if cname in r.get("assumed_callees", {}):
+                        continue
+                    if cname not in seen:
+                        seen.add(cname)
+                        todo.append(cname)
+        targets = [r["target"] for r in results]
+    unverifiable = {"no contract named"}
+    for r in results:
+        if r["target"] not in listed and r.get("undecided") and "is not a function" in str(r.get("undecided")):
+            r["undecided"] = None
     for r in results:
         f = filters.get(r["target"])
         if f is not None:
@@ -338,7 +360,8 @@ def main(argv=None):
                 callees[cname] = "verified by the check of " + ", ".join(sorted(set(elsewhere[cname])))
             else:
                 variants = sorted(t for t in elsewhere if t.split("#")[0] == cname.split("#")[0])
-                callees[cname] = "ASSUMED at call sites: this contract is never verified against the body" + \
+                why = r.get("assumed_callees", {}).get(cname)
+                callees[cname] = "ASSUMED at call sites: this contract is never verified against the body" + (f" [{why}]" if why else "") + \
                     (f" (other contracts of the same function are: {', '.join(variants)})" if variants else "")
                 asm.add(f"assumed contract of a callee: {cname} (used at call sites, not verified against its body)")
     for name in disagreements:
